@@ -1,0 +1,26 @@
+//go:build verif
+
+// Contracts for package v1 (the Advanced StatefulSet API types), read by the
+// verification-condition generator in /verif/engine.  This file contains
+// comments only: with the build tag off it is not compiled, with the tag on
+// it adds no code.
+package v1
+
+// ---- set-level client-side defaulting is idempotent (C19, the part within reach) ------------------------------
+// Idempotence is proved as "the result is a fixed point": under profile `first` (arbitrary input) the
+// postcondition says the object is defaulted; under profile `again` (input already defaulted) the postcondition
+// says nothing changed.  Together: SetDefaults_StatefulSet(SetDefaults_StatefulSet(x)) == SetDefaults_StatefulSet(x).
+// The pod-template defaulters called by the generated SetObjectDefaults_StatefulSet (interior pointers into
+// the template's slices) are outside the value model and are NOT covered.
+//@ spec func defaultedS(o *StatefulSet) bool = o.Spec.PodManagementPolicy != "" && o.Spec.UpdateStrategy.Type != "" && (o.Spec.UpdateStrategy.Type == "RollingUpdate" && o.Spec.UpdateStrategy.RollingUpdate != nil ==> o.Spec.UpdateStrategy.RollingUpdate.Partition != nil) && o.Spec.Replicas != nil && o.Spec.RevisionHistoryLimit != nil
+
+//@ func SetDefaults_StatefulSet
+//@   profiles first, again
+//@   requires obj != nil
+//@   profile again requires defaultedS(obj)
+//@   modifies obj.Spec, *obj.Spec.UpdateStrategy.RollingUpdate
+//@   profile first ensures [C19] fixedpoint: defaultedS(obj)
+//@   profile first ensures [C19] values: (old(obj.Spec.PodManagementPolicy) == "" ==> obj.Spec.PodManagementPolicy == "OrderedReady") && (old(obj.Spec.Replicas) == nil ==> deref(obj.Spec.Replicas) == 1) && (old(obj.Spec.RevisionHistoryLimit) == nil ==> deref(obj.Spec.RevisionHistoryLimit) == 10) && (old(obj.Spec.UpdateStrategy.Type) == "" ==> obj.Spec.UpdateStrategy.Type == "RollingUpdate" && obj.Spec.UpdateStrategy.RollingUpdate != nil && deref(obj.Spec.UpdateStrategy.RollingUpdate.Partition) == 0)
+//@   profile first ensures [C19] keeps: (old(obj.Spec.PodManagementPolicy) != "" ==> obj.Spec.PodManagementPolicy == old(obj.Spec.PodManagementPolicy)) && (old(obj.Spec.Replicas) != nil ==> obj.Spec.Replicas == old(obj.Spec.Replicas) && deref(obj.Spec.Replicas) == old(deref(obj.Spec.Replicas))) && (old(obj.Spec.UpdateStrategy.Type) != "" ==> obj.Spec.UpdateStrategy.Type == old(obj.Spec.UpdateStrategy.Type) && obj.Spec.UpdateStrategy.RollingUpdate == old(obj.Spec.UpdateStrategy.RollingUpdate))
+//@   profile again ensures [C19] unchanged: obj.Spec.PodManagementPolicy == old(obj.Spec.PodManagementPolicy) && obj.Spec.UpdateStrategy.Type == old(obj.Spec.UpdateStrategy.Type) && obj.Spec.UpdateStrategy.RollingUpdate == old(obj.Spec.UpdateStrategy.RollingUpdate) && obj.Spec.Replicas == old(obj.Spec.Replicas) && deref(obj.Spec.Replicas) == old(deref(obj.Spec.Replicas)) && obj.Spec.RevisionHistoryLimit == old(obj.Spec.RevisionHistoryLimit) && deref(obj.Spec.RevisionHistoryLimit) == old(deref(obj.Spec.RevisionHistoryLimit))
+//@   profile again ensures [C19] partitionunchanged: obj.Spec.UpdateStrategy.RollingUpdate != nil ==> obj.Spec.UpdateStrategy.RollingUpdate.Partition == old(obj.Spec.UpdateStrategy.RollingUpdate.Partition) && (obj.Spec.UpdateStrategy.RollingUpdate.Partition != nil ==> deref(obj.Spec.UpdateStrategy.RollingUpdate.Partition) == old(deref(obj.Spec.UpdateStrategy.RollingUpdate.Partition)))
